@@ -4,4 +4,7 @@ import VibeProof.Props.C22
 #print axioms VibeProof.C22.C22_timestamp_total
 #print axioms VibeProof.C22.C22_interval_total
 #print axioms VibeProof.C22.C22_total
+#print axioms VibeProof.C22.C22_date_roundtrip
+#print axioms VibeProof.C22.C22_time_roundtrip
+#print axioms VibeProof.C22.C22_timestamp_roundtrip
 #print axioms VibeProof.C22.C22_interval_roundtrip
